@@ -4,15 +4,38 @@ import DspVerif.Model.Lru
 namespace Dsp.Driver
 open Dsp.Proto Dsp.Lru
 
-/-- one harness operation = the API calls it makes, in order -/
+/-- one harness operation = the plan requests its API calls make, in order.  REJECTED calls are histories too: what they
+    request before they throw is part of the model (`IfftPlanR(n)` builds `FftPlan(n/2)` in its member initialisers and
+    checks `n` afterwards; a plan applied to the wrong length has been requested already; `create_fft_plan(0)` throws inside
+    the plan constructor, before `put`). -/
 def parseOp (s : String) : Option (List Op) :=
+  let num (r : List Char) : Option Nat := (String.ofList r).toNat?
+  let irfftReq (n : Nat) : List Op := if n / 2 == 0 then [] else [Op.irfft n]
   match s.toList with
-  | 'c' :: r => (String.ofList r).toNat?.map (fun n => [Op.fftC n])
-  | 'f' :: r => (String.ofList r).toNat?.map (fun n => [Op.fftC n])          -- ifft(n): IfftPlan(n) -> FftPlan(n)
-  | 'r' :: r => (String.ofList r).toNat?.map (fun n => [Op.fftR n])
-  | 'i' :: r => (String.ofList r).toNat?.map (fun n => [Op.fftR n, Op.irfft n])   -- irfft(fft(x_real), n)
-  | 'h' :: r => (String.ofList r).toNat?.map (fun n => [Op.fftR n, Op.irfft n])   -- irfft(first n/2+1 bins of fft(x_real), n)
+  | 'c' :: r => (num r).map (fun n => [Op.fftC n])
+  | 'f' :: r => (num r).map (fun n => [Op.fftC n])          -- ifft(n): IfftPlan(n) -> FftPlan(n)
+  | 'r' :: r => (num r).map (fun n => [Op.fftR n])
+  | 'i' :: r => (num r).map (fun n => [Op.fftR n, Op.irfft n])   -- irfft(fft(x_real), n)
+  | 'h' :: r => (num r).map (fun n => [Op.fftR n, Op.irfft n])   -- irfft(first n/2+1 bins of fft(x_real), n)
+  | 's' :: r => (num r).map (fun n => [Op.fftR n, Op.irfft n])   -- istft(stft(x, nfft = n)): FftPlanR(n), then IfftPlanR(n)
+  | 'k' :: r => (num r).map (fun n => [Op.irfft n, Op.fftR n])   -- IfftPlanR(n) object (one rejected call), then rfft, then the object again
+  | 'K' :: r => (num r).map (fun n => [Op.fftC n])               -- FftPlan(n) object (one rejected call, one valid call)
+  -- rejected calls
+  | 'o' :: r => (num r).map irfftReq                             -- irfft(X, odd n): FftPlan(n/2) is requested before the check
+  | 'O' :: r => (num r).map irfftReq                             -- IfftPlanR(odd n)
+  | 'S' :: r => (num r).map irfftReq                             -- istft with odd nfft: IfftPlanR(nfft)
+  | 'w' :: r => (num r).map irfftReq                             -- irfft(wrong bin count, n): the plan exists, solve throws
+  | 'U' :: r => (num r).map irfftReq                             -- istft, frame of the wrong length: IfftPlanR(nfft) exists already
+  | 'p' :: r => (num r).map (fun n => [Op.fftC n])               -- FftPlan(n)(n+1 samples)
+  | 'j' :: r => (num r).map (fun n => [Op.fftC n])               -- IfftPlan(n)(n+1 samples)
+  | 'q' :: r => (num r).map (fun n => [Op.fftR n])               -- FftPlanR(n)(n+1 samples)
+  | 'T' :: r => (num r).map (fun _ => [])                        -- stft with overlap = nwin: rejected before any plan
+  | 'E' :: r => (num r).map (fun _ => [])                        -- empty inputs: create_*_plan(0) throws before `put`
   | 'z' :: r =>
+    match (String.ofList r).splitOn ":" with
+    | [a, b] => do pure [Op.czt (← a.toNat?) (← b.toNat?)]
+    | _ => none
+  | 'Z' :: r =>                                                  -- CztPlan(n, m)(n+1 samples)
     match (String.ofList r).splitOn ":" with
     | [a, b] => do pure [Op.czt (← a.toNat?) (← b.toNat?)]
     | _ => none
@@ -23,15 +46,52 @@ def fmtKeys (s : FftState Nat) : String :=
   let kr := s.cR.keys.map (fun (k : Nat) => (k : Int))
   s!"C {fmtIntList kc} R {fmtIntList kr}"
 
+/-- `k v1 … vk` of naturals from the front of a token list -/
+def takeNats : List String → Option (List Nat × List String)
+  | [] => none
+  | k :: rest => do
+    let n ← k.toNat?
+    if rest.length < n then none else
+    let xs ← (rest.take n).mapM String.toNat?
+    pure (xs, rest.drop n)
+
+/-- a cache holding the given keys (most recently used first); the values are the keys -/
+def cacheOf (cap : Nat) (ks : List Nat) : Cache Nat := ⟨cap, ks.map (fun k => (k, k))⟩
+
+def runOps (s0 : FftState Nat) (ops : List (List Op)) : Option String :=
+  let (_, outs) := ops.foldl (fun (acc : FftState Nat × List String) (o : List Op) =>
+    let s := o.foldl (step id id) acc.1
+    (s, fmtKeys s :: acc.2)) (s0, [])
+  if outs.isEmpty then some "-" else some (String.intercalate " " outs.reverse)
+
 def h10 : List String → Option String
   | "hist" :: cap :: ll :: _k :: ops => do
     let cap ← cap.toNat?
     let ops ← ops.mapM parseOp
     let s0 : FftState Nat := FftState.init cap
     let s0 := if ll == "1" then [Op.fftC 60, Op.fftC 47, Op.fftR 90].foldl (step id id) s0 else s0
-    let (_, outs) := ops.foldl (fun (acc : FftState Nat × List String) (o : List Op) =>
-      let s := o.foldl (step id id) acc.1
-      (s, fmtKeys s :: acc.2)) (s0, [])
+    runOps s0 ops
+  -- a window of a long history: the state at its start is given (keys of both caches), then lock-step as in `hist`
+  | "win" :: cap :: "C" :: rest => do
+    let cap ← cap.toNat?
+    let (kc, rest) ← takeNats rest
+    match rest with
+    | "R" :: rest => do
+      let (kr, rest) ← takeNats rest
+      match rest with
+      | _k :: ops => do
+        let ops ← ops.mapM parseOp
+        runOps ⟨cacheOf cap kc, cacheOf cap kr⟩ ops
+      | _ => none
+    | _ => none
+  -- the container alone: `lookup-or-create` (exists ? get : put) of each key, from a given state; key list after every operation
+  | "lru" :: cap :: rest => do
+    let cap ← cap.toNat?
+    let (ks, ops) ← takeNats rest
+    let ops ← ops.mapM String.toNat?
+    let (_, outs) := ops.foldl (fun (acc : Cache Nat × List String) (k : Nat) =>
+      let c := if acc.1.has k then (acc.1.get k).1 else acc.1.put k k
+      (c, fmtIntList (c.keys.map (fun (k : Nat) => (k : Int))) :: acc.2)) (cacheOf cap ks, [])
     if outs.isEmpty then some "-" else some (String.intercalate " " outs.reverse)
   | _ => none
 
